@@ -72,8 +72,10 @@ def gen_scenario(rng, cfg):
                 stages.append({"kind": "builtin", "text": rng.choice(BUILTINS)})
             elif k < 96:
                 stages.append({"kind": "notfound", "text": "no_such_cmd_%d" % rng.below(1000)})
-            else:
+            elif k < 98:
                 stages.append({"kind": "noexec", "text": "./noexec"})
+            else:
+                stages.append({"kind": "garbage", "text": "./garbage"})   # executable bit set, not a program: ENOEXEC
         text = " | ".join(s["text"] for s in stages)
         lines.append({"text": text, "stages": stages, "probe": False})
         this_line = len(lines) - 1
@@ -126,6 +128,10 @@ class C02Runner(Runner):
         with open(p, "w") as f:
             f.write("#!/bin/sh\nexit 0\n")
         os.chmod(p, 0o644)
+        p = os.path.join(self.sim.work, "garbage")
+        with open(p, "wb") as f:
+            f.write(b"\x01\x02not a program\n" * 8)
+        os.chmod(p, 0o755)
 
     def pipe_fault(self, k):
         f = self.sc.get("faults", {}).get("pipe")
